@@ -157,7 +157,9 @@ pub fn dispatch(ctx: &Ctx, extra: &[String]) -> (String, String) {
 fn artefacts(ctx: &Ctx) -> (String, String) {
 	use crate::keys::{build_pool, PoolSize};
 	use certs::Prop;
-	let pool = build_pool(if ctx.quick() { PoolSize::Quick } else { PoolSize::Thorough });
+	// the slow instrumented layers (valgrind) use the small pool: RSA-4096 generation under memcheck takes minutes
+	let slow_layer = std::env::var("VERIF_SCALE_DIV").is_ok();
+	let pool = build_pool(if slow_layer { PoolSize::Small } else if ctx.quick() { PoolSize::Quick } else { PoolSize::Thorough });
 	ctx.note(format!("key pool: {}", pool.iter().map(|k| k.label.clone()).collect::<Vec<_>>().join(",")));
 	let prop = match ctx.prop.as_str() {
 		"C01" => Prop::C01,
